@@ -98,12 +98,22 @@ def _gen(module, cfg, path):
     return n, g
 
 
+class Died(Exception):
+    """the harness process was killed by a signal while driving the code under test"""
+
+    def __init__(self, binname, rc, tail):
+        Exception.__init__(self, "%s died with signal %d" % (binname, -rc))
+        self.binname, self.rc, self.tail = binname, rc, tail
+
+
 def _run_bin(binname, args, timeout=2400):
-    rc, out, err = vlib.run_bin(binname, args, timeout=timeout)
+    rc, out, err = vlib.run_bin(binname, args, timeout=timeout, check=False)
     lines = vlib.jsonl(out)
     summ = [l for l in lines if l.get("type") == "summary"]
     if not summ:
-        raise vlib.ToolError("%s %s produced no summary\n%s\n%s" % (binname, args, out[-1500:], err[-1500:]))
+        if rc < 0:
+            raise Died(binname, rc, err[-800:])
+        raise vlib.ToolError("%s %s produced no summary (rc=%s)\n%s\n%s" % (binname, args, rc, out[-1500:], err[-1500:]))
     fatal = [l for l in lines if l.get("type") == "fatal"]
     if fatal:
         raise vlib.ToolError("%s: %s" % (binname, fatal[0].get("desc")))
@@ -203,20 +213,35 @@ def run(run, tier, replay):
             for d in ("iour", "poll"):
                 legs.append(("%s.close() %s" % (k, d), "fd_replay", [p_file, k, d]))
         results = {}
+        died = []
         with cf.ThreadPoolExecutor(max_workers=3) as pool:
             futs = {pool.submit(_run_bin, b, a): (name, b) for (name, b, a) in legs}
             for fut in cf.as_completed(futs):
                 name, b = futs[fut]
-                results[name] = fut.result()
+                try:
+                    results[name] = fut.result()
+                except Died as e:
+                    # memory unsafety in the code under test (e.g. a double close of the owned value) can take
+                    # the process down: that is an observation, not a tool problem
+                    died.append(name)
+                    run.report({"site": name, "what": "process-died", "signal": -e.rc},
+                               "%s: the harness process driving the real code was killed by signal %d\n%s" %
+                               (name, -e.rc, e.tail), {"leg": name})
         drift = 0
         total = 0
         for name, b, a in legs:
+            if name in died:
+                continue
             summ, det = results[name]
             if summ.get("aborted"):
                 raise vlib.ToolError("%s aborted" % name)
             drift += _classify(run, summ, det, name)
             total += summ.get("program_runs", summ["cases"]) + summ.get("stress_iterations", 0)
             run.note("leg_" + name.replace(" ", "_"), {k: v for k, v in summ.items() if k not in ("type", "problems")})
+        if died:
+            run.add_traces(total)
+            run.note("legs_died", died)
+            return
         # bindings that must not be lost
         s_unsync = results["SharedFd<Instrumented> unsync"][0]
         if s_unsync.get("sync_build") is not False or results["SharedFd<Instrumented> sync build, sequential"][0].get("sync_build") is not True:
